@@ -87,6 +87,10 @@ def make_case(rng, tier):
         if rng.random() < 0.25:
             # complex matrix polynomial (P L U = A involves no transposes: meaningful for complex data)
             c['x'] = c['x'] + 0.5j * rand_coeffs(rng, c['x'].shape, -1, 1)
+        elif rng.random() < 0.1:
+            # D = 1 is the plain factorization, which exists for a singular matrix too
+            c['D'] = 1
+            c['x'] = ops._gen_det_singular(rng, 1, P, tier)[0]['v']
     elif kind == 'eigh':
         c['x'] = ops.gen_square(rng, D, P, rng.randint(1, 4), 'sym')
     elif kind == 'eigh_rep':
@@ -343,7 +347,8 @@ def step_equations_fail(kind, a, outs):
                 return 'eigh-step: the order-%d step equations of _eigh1 (model of the theorem) do not hold on the output' % d
     if kind == 'lu':
         w, l_, u = outs
-        L0inv, U0inv = np.linalg.inv(l_[0]), np.linalg.inv(u[0])
+        if D > 1:
+            L0inv, U0inv = np.linalg.inv(l_[0]), np.linalg.inv(u[0])
         for d in range(1, D):
             dF = w[0].T @ a[d] - sum((l_[d - k] @ u[k] for k in range(1, d)), np.zeros((n, n)))
             F_ = L0inv @ dF @ U0inv
